@@ -99,6 +99,11 @@ func (s *Server) handleAuthentication(conn net.Conn) error {
 		}
 		return fmt.Errorf("socks5 client provided authentication is not supported by socks5 server")
 	}
+	if requestUserPassAuth && len(s.config.AuthOpts.IngressCredentials) > 0 {
+		// Credentials are required and the client is able to present them.
+		// Do not let it skip them by also offering no authentication.
+		requestNoAuth = false
+	}
 	if requestNoAuth {
 		// Handle no authentication. This has higher priority than user password authentication.
 		if !requestUserPassAuth && len(s.config.AuthOpts.IngressCredentials) > 0 {
